@@ -13,11 +13,6 @@ using ArduinoJson::JsonObjectConst;
 using ArduinoJson::JsonString;
 using ArduinoJson::JsonVariantConst;
 
-#if ARDUINOJSON_USE_DOUBLE
-constexpr bool kUseDouble = true;
-#else
-constexpr bool kUseDouble = false;
-#endif
 
 struct WalkOpts {
   const char* cls = "C04:walk-inconsistent";
